@@ -436,7 +436,7 @@ func e1RunWordInner(sc e1Scen, word []sym, scratch string, props map[string]bool
 			u := ws.unit(s)
 			if u.RA && u.Track == sc.Cfg.leading() {
 				rotations++
-				if rotations == sc.FaultAt || rotations == sc.FaultAt+1 {
+				if rotations == sc.FaultAt || rotations == sc.FaultAt+1 || (sc.Period > 0 && rotations > sc.FaultAt && (rotations-sc.FaultAt)%sc.Period < 2) {
 					u.Corrupt = true
 					r.faulted = true
 				}
